@@ -126,15 +126,19 @@ def main():
     timeout_ms = 20000
     P = programs(tier)
     ex = Extractor()
-    jobs = []
-    for p in P:
-        rc = ex.req({"cmd": "compile", "src": p["const_src"], "sizes": []})
-        rr = ex.req({"cmd": "compile", "src": p["rt_src"], "sizes": []})
-        jobs.append((p, rc, rr, timeout_ms))
     results = []
+    # the compiled circuits are only kept for one chunk of pairs at a time (the thorough tier has 140 000 pairs)
+    CH = 4000
     with mp.Pool(min(16, os.cpu_count() or 4)) as pool:
-        for r in pool.imap_unordered(check_pair, jobs, chunksize=8):
-            results.append(r)
+        for lo in range(0, len(P), CH):
+            jobs = []
+            for p in P[lo:lo + CH]:
+                rc = ex.req({"cmd": "compile", "src": p["const_src"], "sizes": []})
+                rr = ex.req({"cmd": "compile", "src": p["rt_src"], "sizes": []})
+                jobs.append((p, rc, rr, timeout_ms))
+            for r in pool.imap_unordered(check_pair, jobs, chunksize=8):
+                results.append(r)
+            del jobs
     known = e2lib.known_findings(PROP)
     os.makedirs(os.path.join(e2lib.OUT, PROP), exist_ok=True)
     n_unsat = n_sat = n_unknown = n_err = 0
